@@ -760,7 +760,21 @@ static int janet_chan_pack(JanetChannel *chan, Janet *x) {
                 JANET_OUT_OF_MEMORY;
             }
             janet_buffer_init(buf, 10);
-            janet_marshal(buf, *x, NULL, JANET_MARSHAL_UNSAFE);
+            /* janet_marshal panics on values that cannot be marshalled. The caller holds the
+             * channel lock and must get the chance to release it: catch the panic and report
+             * failure, with the error as the value. */
+            JanetTryState tstate;
+            JanetSignal sig = janet_try(&tstate);
+            if (!sig) {
+                janet_marshal(buf, *x, NULL, JANET_MARSHAL_UNSAFE);
+            }
+            janet_restore(&tstate);
+            if (sig) {
+                janet_buffer_deinit(buf);
+                janet_free(buf);
+                *x = tstate.payload;
+                return 1;
+            }
             *x = janet_wrap_buffer(buf);
             return 0;
         }
